@@ -258,11 +258,11 @@ Proof.
     destruct (negb (index_len (rest s (pos t3)) =? 0)%nat); [|discriminate].
     eapply IH in H; [| unfold sane; st_simpl; lia | | | ].
     - destruct H as (B1 & B2 & B3). repeat split; try assumption.
-      rewrite B3. apply last_start. rewrite pp_start_push. reflexivity.
-    - st_simpl. eapply pp_inv_mono; [apply pp_inv_push_int; eassumption|lia].
+      rewrite B3. apply last_start. rewrite pp_start_stop, pp_start_push. reflexivity.
+    - st_simpl. eapply pp_inv_push_stop; [eassumption|lia|left; eauto].
     - intros Hi. exfalso. destruct top as [[l a] z]. simpl in Hi. destruct Hi as (Hi & _).
       destruct l; discriminate.
-    - rewrite pp_start_push. assumption. }
+    - rewrite pp_start_stop, pp_start_push. assumption. }
   destruct (N.eqb c 93) eqn:E93.
   { apply N.eqb_eq in E93.
     assert (Hn : ~ pp_initial top) by (intros Hi; apply Hinit in Hi; congruence).
@@ -346,6 +346,102 @@ Proof.
     eapply path_loop_nest in H; [exact H| split; assumption | | | exact I].
     + simpl. repeat split; try lia. left. auto.
     + intros _. exact E.
+Qed.
+
+(** * A path token stops exactly where the scanner stopped scanning it
+    (with fix C17/0005: also after a trailing shorthand index). *)
+
+Definition pp_z (p : ppath) : Z := let '(_, _, z) := p in z.
+
+Lemma pp_z_stop p n : pp_z (pp_stop p n) = Z.of_nat n.
+Proof. destruct p as [[l a] z]. reflexivity. Qed.
+Lemma etok_stop_close p : etok_stop (pp_close p) = pp_z p.
+Proof. destruct p as [[l a] z]. reflexivity. Qed.
+
+Lemma path_loop_stop_exact : forall f t top below t' tok,
+  sane s t ->
+  (pp_z top = Z.of_nat (pos t) \/ peek_at s (pos t) = Some 91%N) ->
+  path_loop shorthand s f t top below = Ok (t', tok) ->
+  etok_stop tok = Z.of_nat (pos t').
+Proof.
+  induction f as [|f IH]; intros t top below t' tok Hs Hz H; [discriminate|].
+  destruct Hs as (S1 & S2). cbn [path_loop] in H.
+  destruct (peek_at s (pos t)) as [c|] eqn:Ep; [|discriminate].
+  pose proof (peek_some s _ _ Ep) as Hlt.
+  assert (Hrec : forall t2 top2 below2, sane s t2 -> pp_z top2 = Z.of_nat (pos t2) ->
+            path_loop shorthand s f t2 top2 below2 = Ok (t', tok) -> etok_stop tok = Z.of_nat (pos t')).
+  { intros t2 top2 below2 A B C. eapply IH; [exact A|left; exact B|exact C]. }
+  assert (Hexit : c <> 91%N -> forall t2, backup (set_pos t (S (pos t))) = Ok t2 ->
+            match below with [] => Ok (t2, pp_close top) | _ :: _ => syn (pos t2) end = Ok (t', tok) ->
+            etok_stop tok = Z.of_nat (pos t')).
+  { intros Hc t2 Hb Hr. destruct below; [|discriminate]. inversion Hr; subst t' tok. clear Hr.
+    pose proof (rspec_inv _ _ _ _ _ (backup_spec s (set_pos t (S (pos t))) 0 0) Hb) as (-> & _).
+    rewrite etok_stop_close. st_simpl. destruct Hz as [Hz|Hz]; [rewrite Hz; f_equal; lia|congruence]. }
+  destruct (N.eqb c 46) eqn:E46.
+  { apply N.eqb_eq in E46.
+    destruct (peek_is s (set_pos t (S (pos t))) 46).
+    { apply bind_ok in H as (t2 & Hb & Hr). eapply Hexit; [congruence|eassumption|eassumption]. }
+    apply bind_ok in H as (t3 & Hw & H).
+    pose proof (rspec_inv _ _ _ _ _ (ignore_ws_spec s (ignore (set_pos t (S (pos t)))) 0 0
+                  ltac:(unfold sane; st_simpl; lia)) Hw) as ((A0 & A1) & A2 & A3 & A4). st_simpl.
+    pose proof (word_len_le (rest s (pos t3))) as Hw1. pose proof (index_len_le (rest s (pos t3))) as Hi1.
+    rewrite rest_len in Hw1, Hi1.
+    destruct (negb (word_len (rest s (pos t3)) =? 0)%nat).
+    { eapply Hrec in H; [exact H|unfold sane; st_simpl; lia|st_simpl; apply pp_z_stop]. }
+    destruct shorthand; [|discriminate].
+    destruct (negb (index_len (rest s (pos t3)) =? 0)%nat); [|discriminate].
+    eapply Hrec in H; [exact H|unfold sane; st_simpl; lia|st_simpl; apply pp_z_stop]. }
+  destruct (N.eqb c 93) eqn:E93.
+  { destruct below as [|parent below'].
+    { apply bind_ok in H as (t2 & _ & H). discriminate. }
+    destruct top as [[l a] z].
+    eapply Hrec in H; [exact H|unfold sane; st_simpl; lia|st_simpl; apply pp_z_stop]. }
+  destruct (N.eqb c 91) eqn:E91.
+  2:{ apply N.eqb_neq in E91. apply bind_ok in H as (t2 & Hb & Hr). eapply Hexit; eassumption. }
+  apply bind_ok in H as (t3 & Hw & H).
+  pose proof (rspec_inv _ _ _ _ _ (ignore_ws_spec s (ignore (set_pos t (S (pos t)))) 0 0
+                ltac:(unfold sane; st_simpl; lia)) Hw) as ((A0 & A1) & A2 & A3 & A4). st_simpl.
+  destruct (peek_at s (pos t3)) as [q|] eqn:Eq; [|discriminate].
+  pose proof (peek_some s _ _ Eq) as Hq.
+  pose proof (word_len_le (rest s (pos t3))) as Hw1. pose proof (index_len_le (rest s (pos t3))) as Hi1.
+  rewrite rest_len in Hw1, Hi1.
+  destruct (N.eqb q 39 || N.eqb q 34)%bool.
+  { st_simpl. apply bind_ok in H as (p & Hsc & H).
+    pose proof (scan_string_spec q (rest s (S (pos t3))) (S (pos t3)) (S (pos t3)) L) as Hsc'.
+    rewrite rest_len in Hsc'. specialize (Hsc' ltac:(lia) ltac:(lia)). rewrite Hsc in Hsc'.
+    destruct Hsc' as (P1 & P2).
+    apply bind_ok in H as (t6 & Hw6 & H).
+    pose proof (rspec_inv _ _ _ _ _ (ignore_ws_spec s (set_both (set_both t3 (S (pos t3))) (S p)) 0 0
+                  ltac:(unfold sane; st_simpl; lia)) Hw6)
+      as ((B0 & B1) & B2 & B3 & B4). st_simpl.
+    apply bind_ok in H as (t7 & Hr7 & H).
+    pose proof (rspec_inv _ _ _ _ _ (expect_rbracket_spec s t6 0 0 ltac:(unfold sane; lia)) Hr7)
+      as (((C0 & C1) & C2 & C3 & C4) & C5).
+    eapply Hrec in H; [exact H|unfold sane; lia|rewrite pp_z_stop, C0; reflexivity]. }
+  destruct (negb (index_len (rest s (pos t3)) =? 0)%nat).
+  { apply bind_ok in H as (t5 & Hw5 & H).
+    pose proof (rspec_inv _ _ _ _ _ (ignore_ws_spec s (set_both t3 (pos t3 + index_len (rest s (pos t3)))%nat) 0 0
+                  ltac:(unfold sane; st_simpl; lia)) Hw5)
+      as ((B0 & B1) & B2 & B3 & B4). st_simpl.
+    apply bind_ok in H as (t6 & Hr6 & H).
+    pose proof (rspec_inv _ _ _ _ _ (expect_rbracket_spec s t5 0 0 ltac:(unfold sane; lia)) Hr6)
+      as (((C0 & C1) & C2 & C3 & C4) & C5).
+    eapply Hrec in H; [exact H|unfold sane; lia|rewrite pp_z_stop, C0; reflexivity]. }
+  destruct (negb (word_len (rest s (pos t3)) =? 0)%nat); [|discriminate].
+  eapply Hrec in H; [exact H|unfold sane; st_simpl; lia|st_simpl; reflexivity].
+Qed.
+
+Lemma accept_path_span_exact f t carry t' tok :
+  le_L s t -> (carry = false -> sane s t /\ peek_at s (pos t) = Some 91%N) ->
+  accept_path shorthand s f t carry = Ok (t', tok) ->
+  etok_start tok = start t /\ etok_stop tok = Z.of_nat (pos t').
+Proof.
+  intros Hl Hc H. split.
+  - eapply accept_path_nest in H; [apply H|exact Hl|exact Hc].
+  - destruct Hl as (A & B). unfold accept_path in H. destruct carry.
+    + eapply path_loop_stop_exact in H; [exact H|unfold sane; st_simpl; lia|left; st_simpl; reflexivity].
+    + destruct (Hc eq_refl) as (Hs & E).
+      eapply path_loop_stop_exact in H; [exact H|exact Hs|right; exact E].
 Qed.
 
 (** * Expression tokens: in order, each well placed *)
@@ -536,3 +632,11 @@ Proof.
 Qed.
 
 End Nest.
+
+(** Non-vacuity / the witness of the repaired defect: with shorthand indexes
+    the path token of "{{ a.1 }}" spans [3, 6) — before fix C17/0005 its stop
+    was 4. *)
+Example path_shorthand_stop_example :
+  lex true [123; 123; 32; 97; 46; 49; 32; 125; 125]%N
+  = Ok [MOutput 0 9 WDefault WDefault [EPath [ESegStr [97%N]; ESegInt 1%Z] 3 6%Z]].
+Proof. vm_compute. reflexivity. Qed.
